@@ -104,7 +104,7 @@ func BuildOverlay(repoDir, verifDir string, withTests bool, dirs ...string) (map
 				if err != nil {
 					continue
 				}
-				ov[filepath.Join(rd, name)] = []byte(RewriteBoundary(string(src)))
+				ov[filepath.Join(rd, name)] = []byte(RewriteBoundary(d, string(src)))
 			}
 		}
 	}
@@ -206,40 +206,101 @@ var boundaryFiles = map[string][]string{
 	"cmd/seccomp-profiler/disasm": {"disasm.go"},
 }
 
-var boundaryRewrites = [][2]string{
-	{"syscall.Syscall6(", "vstubSyscall6("},
-	{"syscall.Syscall(", "vstubSyscall("},
-	{"syscall.RawSyscall6(", "vstubSyscall6("},
-	{"syscall.RawSyscall(", "vstubSyscall("},
-	{"runtime.LockOSThread(", "vstubLockOSThread("},
-	{"runtime.UnlockOSThread(", "vstubUnlockOSThread("},
-	// cmd/sandbox
-	{"flag.StringVar(", "vstubStringVar("},
-	{"flag.BoolVar(", "vstubBoolVar("},
-	{"flag.Parse()", "vstubFlagParse()"},
-	{"flag.Args()", "vstubFlagArgs()"},
-	{"= parsePolicy()", "= vstubParsePolicy()"},
-	{"yaml.NewConfigWithFile(", "vstubNewConfigWithFile("},
-	{"conf.Unpack(", "vstubUnpack(conf, "},
-	{"seccomp.LoadFilter(", "vstubLoadFilter("},
-	{"exec.Command(", "vstubCommand("},
-	{"cmd.Run()", "vstubCmdRun(cmd)"},
-	{"os.Exit(", "vstubExit("},
-	// disasm
-	{"os.Open(", "vstubOpen("},
-	{"f.Close()", "vstubFileClose(f)"},
-	{"bufio.NewScanner(", "vstubNewScanner("},
-	{"bufio.NewReader(", "vstubNewReader("},
-	{"s.Scan()", "vstubScan(s)"},
-	{"s.Text()", "vstubText(s)"},
-	{"s.Err()", "vstubScanErr(s)"},
-	{"findSyscallNum(instructions, s", "vstubFindSyscallNum(instructions, s"},
+type rewrite struct {
+	scope    string // "" = whole file, else the name of the function whose body is rewritten
+	from, to string
+}
+
+var boundaryRewrites = map[string][]rewrite{
+	"root": {
+		{"", "syscall.Syscall6(", "vstubSyscall6("},
+		{"", "syscall.Syscall(", "vstubSyscall("},
+		{"", "syscall.RawSyscall6(", "vstubSyscall6("},
+		{"", "syscall.RawSyscall(", "vstubSyscall("},
+		{"", "runtime.LockOSThread(", "vstubLockOSThread("},
+		{"", "runtime.UnlockOSThread(", "vstubUnlockOSThread("},
+	},
+	"cmd/sandbox": {
+		{"", "flag.StringVar(", "vstubStringVar("},
+		{"", "flag.BoolVar(", "vstubBoolVar("},
+		{"", "flag.Parse()", "vstubFlagParse()"},
+		{"", "flag.Args()", "vstubFlagArgs()"},
+		{"", "= parsePolicy()", "= vstubParsePolicy()"},
+		{"", "yaml.NewConfigWithFile(", "vstubNewConfigWithFile("},
+		{"", "conf.Unpack(", "vstubUnpack(conf, "},
+		{"", "seccomp.LoadFilter(", "vstubLoadFilter("},
+		{"", "exec.Command(", "vstubCommand("},
+		{"", "cmd.Run()", "vstubCmdRun(cmd)"},
+		{"", "os.Exit(", "vstubExit("},
+	},
+	"cmd/seccomp-profiler/disasm": {
+		{"", "os.Open(", "vstubOpen("},
+		{"", "f.Close()", "vstubFileClose(f)"},
+		{"", "bufio.NewScanner(", "vstubNewScanner("},
+		{"", "bufio.NewReader(", "vstubNewReader("},
+		{"", "s.Scan()", "vstubScan(s)"},
+		{"", "s.Text()", "vstubText(s)"},
+		{"", "s.Err()", "vstubScanErr(s)"},
+		{"", "findSyscallNum(instructions, s", "vstubFindSyscallNum(instructions, s"},
+	},
+	"cmd/seccomp-profiler": {
+		{"", "flag.StringVar(", "vstubStringVar("},
+		{"", "flag.BoolVar(", "vstubBoolVar("},
+		{"", "flag.Var(", "vstubFlagVar("},
+		{"", "flag.Parse()", "vstubFlagParse()"},
+		{"", "flag.Arg(", "vstubFlagArg("},
+		{"", "log.Fatalf(", "vstubFatalf("},
+		{"", "log.Fatal(", "vstubFatal("},
+		{"main", "= getBinaryArch(", "= vstubGetBinaryArch("},
+		{"main", "= hashBinary(", "= vstubHashBinary("},
+		{"main", "= doObjdump(", "= vstubDoObjdump("},
+		{"main", "disasm.ExtractSyscalls(", "vstubExtractSyscalls("},
+		{"main", "= openOutput(", "= vstubOpenOutput("},
+		{"main", "= writeGoTemplate(", "= vstubWriteGoTemplate("},
+		{"", "yaml.Marshal(", "vstubYAMLMarshal("},
+		{"doObjdump", "= cachedDumpFile(", "= vstubCachedDumpFile("},
+		{"doObjdump", "os.Open(", "vstubOpen("},
+		{"doObjdump", "f.Read(", "vstubFileRead(f, "},
+		{"doObjdump", "f.Close()", "vstubFileClose(f)"},
+		{"doObjdump", "f.Sync()", "vstubFileSync(f)"},
+		{"doObjdump", "f.Name()", "vstubFileName(f)"},
+		{"doObjdump", "os.CreateTemp(", "vstubCreateTemp("},
+		{"doObjdump", "os.Create(", "vstubCreate("},
+		{"doObjdump", "os.Rename(", "vstubRename("},
+		{"doObjdump", "os.Remove(", "vstubRemove("},
+		{"doObjdump", "bufio.NewWriter(", "vstubNewWriter("},
+		{"doObjdump", "out.WriteString(", "vstubWriteString(out, "},
+		{"doObjdump", "out.Flush()", "vstubFlush(out)"},
+		{"doObjdump", "exec.Command(", "vstubCommand("},
+		{"doObjdump", "cmd.Run()", "vstubCmdRun(cmd)"},
+	},
+}
+
+// funcRegion returns the byte range of the top-level function name in src.
+func funcRegion(src, name string) (int, int) {
+	i := strings.Index(src, "\nfunc "+name+"(")
+	if i < 0 {
+		return -1, -1
+	}
+	j := strings.Index(src[i+1:], "\nfunc ")
+	if j < 0 {
+		return i, len(src)
+	}
+	return i, i + 1 + j
 }
 
 // RewriteBoundary is the mechanical source rewrite used for native replays.
-func RewriteBoundary(src string) string {
-	for _, r := range boundaryRewrites {
-		src = strings.ReplaceAll(src, r[0], r[1])
+func RewriteBoundary(dir, src string) string {
+	for _, r := range boundaryRewrites[dir] {
+		if r.scope == "" {
+			src = strings.ReplaceAll(src, r.from, r.to)
+			continue
+		}
+		a, b := funcRegion(src, r.scope)
+		if a < 0 {
+			continue
+		}
+		src = src[:a] + strings.ReplaceAll(src[a:b], r.from, r.to) + src[b:]
 	}
 	// an import whose last use was rewritten away becomes a blank import
 	lines := strings.Split(src, "\n")
